@@ -118,6 +118,29 @@ def simulate_witness(label, seed):
             if not np.allclose(sens[:, :, j].T, fd, rtol=2e-3, atol=2e-5):
                 return dict(case, what='sensitivity column %d is not the derivative w.r.t. the %d-th published parameter %s (requested %s)' % (j, k, pn[k], subset or 'all'),
                             expected=fd.tolist(), observed=sens[:, :, j].T.tolist())
+    # the same outputs re-selected in another order while sensitivities are enabled
+    st_q = sorted(v.qname() for v in m._model.states())
+    if len(st_q) >= 2:
+        try:
+            m.set_outputs(st_q)
+            m.enable_sensitivities(True)
+            m.set_outputs(list(reversed(st_q)))
+            res_ = m.simulate(x, times)
+            if isinstance(res_, tuple):
+                out, sens = res_
+                sens = np.asarray(sens)
+                m.enable_sensitivities(False)
+                for k in range(len(m.parameters())):
+                    h = 1e-5
+                    xp, xm = x.copy(), x.copy()
+                    xp[k] += h
+                    xm[k] -= h
+                    fd = (m.simulate(xp, times) - m.simulate(xm, times)) / (2 * h)
+                    if sens.shape[:2] != (len(times), len(st_q)) or not np.allclose(sens[:, :, k].T, fd, rtol=2e-3, atol=2e-5):
+                        return dict(case, what='outputs re-selected as %s with sensitivities enabled: the sensitivities are not the derivatives of the outputs in the returned order' % (list(reversed(st_q)),),
+                                    expected=fd.tolist(), observed=sens[:, :, k].T.tolist())
+        except Exception as ex:
+            return dict(case, what='re-selecting the outputs in another order with sensitivities enabled raises %r' % (ex,), expected='values', observed=repr(ex))
     return None
 
 
